@@ -1128,16 +1128,27 @@ def _run(lab):
     lab.draining = True
     lab.log('drain_begin')
     finite = lab.backoffs[-1] is None
-    for rnd_i in range(cfg.get('drain_rounds', 300)):
+    idle = 0
+    for rnd_i in range(cfg.get('drain_rounds', 600)):
+        nev = len(lab.events)
         if lab.parked:
             _release(lab, 0, drain_final=(rnd_i > 120 or not finite))
-        elif clock.fire_next() is None:
-            break
+        else:
+            dl = clock.next_deadline()
+            if dl is None:
+                break
+            if idle >= 3:
+                # timer after timer fires without anything happening (a scheduler that re-reads the clock
+                # every so often while the next due time is far away): let the timers fire later and later
+                # (a suspended process does that) instead of stepping through the whole wait
+                clock.now = max(clock.now, dl) + float(min(2 ** (idle + 3), 2 ** 41))
+            clock.fire_next()
         if not lab.settle():
             lab.log('nosettle', 'drain')
             return
         if lab.full_quiescence():
             lab.log('fullq', lab.pools_free())
+        idle = idle + 1 if len(lab.events) == nev + (1 if lab.full_quiescence() else 0) else 0
     final = {}
     try:
         for ts, i in list(lab.inner.load()):
@@ -1270,6 +1281,8 @@ def judge_c01(lab, H):
                                                       'perm': r in permfail[m], 'exhausted': r in exhausted[m]}))
                 continue
             if id in H.final and r in H.final[id]:
+                if H.timers_left is not None or H.parked_left:
+                    continue      # the history was cut before every timer had been run down: not decidable
                 out.append(('stranded', m, {'recipient': r, 'stored_recipients': H.final[id],
                                             'note': 'still stored, but no timer pending, nothing in flight: '
                                                     'will never be retried by this queue'}))
@@ -1467,10 +1480,10 @@ def _expected_bounces(lab, H):
                     if c == 'T':
                         groups.setdefault(rep, []).append(r)
                 for rep, rs in groups.items():
-                    exp[(m, frozenset(rs), rep[0], rep[1] + ' (Too many retries)')] += 1
+                    exp[(m, frozenset(rs), rep[0], ('prefix', rep[1]))] += 1
             elif kind == 'temp':
                 rep = d[le[3][0]][1]
-                exp[(m, frozenset(le[3]), rep[0], rep[1] + ' (Too many retries)')] += 1
+                exp[(m, frozenset(le[3]), rep[0], ('prefix', rep[1]))] += 1
             elif kind == 'exc':
                 exp[(m, frozenset(le[3]), '450', None)] += 1
     return exp
@@ -1536,25 +1549,40 @@ def _bounce_content(lab, info, frc, code, msg, flat):
     if tpl:
         # harness-chosen template: the whole bounce body is determined byte for byte
         ht, ft, rj = BOUNCE_TEMPLATES[tpl]
-        bds = set(re.findall(br'boundary_=[0-9a-f]{32}', body)) - set(re.findall(br'boundary_=[0-9a-f]{32}', want))
+        # the value substituted for {boundary} is the library's business (any printable token without line
+        # breaks, the same at every occurrence): the reference is rendered with a placeholder and matched
+        PH = b'\x00BOUNDARY\x00'
         table = {'sender': info['sender'].encode('utf-8'), 'recipients': rj.join(frc).encode('ascii', 'xmlcharrefreplace'),
                  'client_name': b'client.test', 'client_ip': b'192.0.2.1', 'protocol': b'ESMTP',
-                 'code': code.encode('ascii'), 'message': msg.encode('utf-8'), 'boundary': b'<B>'}
+                 'code': code.encode('ascii'), 'message': msg.encode('utf-8'), 'boundary': PH}
         ref_head, _, ref_pre = _ref_render(ht, table).partition(b'\r\n\r\n')
         ref = ref_pre + want + _ref_render(ft, table)
+        pieces = ref.split(PH)
+        pat = re.escape(pieces[0])
+        for i, piece in enumerate(pieces[1:]):
+            pat += (b'(?P<b>[!-~]{1,200}?)' if i == 0 else b'(?P=b)') + re.escape(piece)
         got = body
-        for b in bds:
-            got = got.replace(b, b'<B>')
-        if len(bds) > 1:
-            out.append(('custom-template-not-rendered-as-documented', {'why': 'several boundary values', 'n': len(bds)}))
-        elif got != ref:
-            k = next((i for i, (x, y) in enumerate(zip(got, ref)) if x != y), min(len(got), len(ref)))
+        if re.fullmatch(pat, got, re.S) is None:
+            # locate the first difference for the witness, using the token that follows the text before the
+            # first placeholder (if the bounce got that far)
+            tok = None
+            if len(pieces) > 1 and got.startswith(pieces[0]):
+                mo = re.match(b'[!-~]{1,200}', got[len(pieces[0]):])
+                tok = mo.group(0) if mo else None
+            ref2 = ref.replace(PH, b'<B>')
+            got2 = got
+            if tok:
+                # the token runs up to where the reference text continues
+                nxt = pieces[1][:1]
+                cut = tok.find(nxt) if nxt and nxt in tok else len(tok)
+                got2 = got.replace(tok[:cut], b'<B>') if cut > 0 else got
+            k = next((i for i, (x, y) in enumerate(zip(got2, ref2)) if x != y), min(len(got2), len(ref2)))
             if want not in got:
                 out.append(('original-not-embedded', {'headers_only': ho, 'template': tpl}))
             else:
                 out.append(('custom-template-not-rendered-as-documented',
-                            {'template': tpl, 'first_difference_at': k, 'observed': got[max(0, k - 30):k + 40],
-                             'expected': ref[max(0, k - 30):k + 40]}))
+                            {'template': tpl, 'first_difference_at': k, 'observed': got2[max(0, k - 30):k + 40],
+                             'expected': ref2[max(0, k - 30):k + 40]}))
         return out
     mo = re.search(br'boundary="([^"]+)"', head)
     parts = body.split(b'--' + mo.group(1)) if mo else []
@@ -1632,21 +1660,36 @@ def judge_c13(lab, H):
             got[key] += 1
             if bm is not None:
                 fac[bm] = (orig, rc, code, msg)
-    # 450 unhandled-exception replies carry the exception text; compare code only there
-    def norm(c):
-        n = collections.Counter()
-        for (m, rs, code, msg), k in c.items():
-            if msg is None or (code == '450' and msg.startswith('4.0.0 Unhandled delivery error')):
-                msg = '<unhandled>'
-            n[(m, rs, code, msg)] += k
-        return n
-    expn, gotn = norm(exp), norm(got)
-    for key in set(expn) | set(gotn):
-        if expn[key] != gotn[key]:
-            kind = 'missing-bounce' if gotn[key] < expn[key] else 'extra-bounce'
+    # The statement fixes which recipients and which reply a bounce carries, not the wording the queue adds:
+    # a bounce after retry exhaustion quotes the last transient reply followed by any note of the queue's own
+    # (message spec ('prefix', text)); the reply the queue makes up for an unexpected relay exception is its own
+    # wording altogether (spec None: any 450 text). Everything else must quote the relay's reply exactly.
+    def fits(spec, msg):
+        if spec is None:
+            return True
+        if isinstance(spec, tuple):
+            return msg is not None and msg.startswith(spec[1])
+        return msg == spec
+    want = collections.defaultdict(list)
+    have = collections.defaultdict(list)
+    for (m, rs, code, spec), k in exp.items():
+        want[(m, rs, code)].extend([spec] * k)
+    for (m, rs, code, msg), k in got.items():
+        have[(m, rs, code)].extend([msg] * k)
+    for key in set(want) | set(have):
+        specs = sorted(want.get(key, []), key=lambda sp: 2 if sp is None else 1 if isinstance(sp, tuple) else 0)
+        msgs = list(have.get(key, []))
+        for sp in specs:
+            hit = next((i for i, x in enumerate(msgs) if fits(sp, x)), None)
+            if hit is not None:
+                msgs.pop(hit)
+                continue
             # a differing grouping shows as one missing + one extra
-            out.append((kind, key[0], {'bounce': [key[0], sorted(key[1]), key[2], key[3]],
-                                       'expected': expn[key], 'observed': gotn[key]}))
+            out.append(('missing-bounce', key[0], {'bounce': [key[0], sorted(key[1]), key[2], sp],
+                                                   'observed_same_recipients_and_code': list(have.get(key, []))}))
+        for x in msgs:
+            out.append(('extra-bounce', key[0], {'bounce': [key[0], sorted(key[1]), key[2], x],
+                                                 'expected_same_recipients_and_code': [str(z) for z in want.get(key, [])]}))
     enq = {}
     for e in lab.events:
         if e[1] == 'bounce_enqueued':
@@ -1696,7 +1739,7 @@ def judge_c13(lab, H):
     # loop guard: messages ever written <= accepted + bounces expected
     nwrites = sum(1 for e in lab.events if e[1] == 'store' and e[2] == 'write')
     nacc = sum(1 for m, i in lab.msgs.items() if i['enqueued'] and not i.get('prepop') and not i.get('ext'))
-    if nwrites > nacc + sum(gotn.values()):
+    if nwrites > nacc + sum(got.values()):
         out.append(('unbounded-message-creation', None, {'writes': nwrites, 'accepted': nacc,
-                                                         'bounces': sum(gotn.values())}))
+                                                         'bounces': sum(got.values())}))
     return out
